@@ -378,7 +378,9 @@ def find_largest_size_bounded_curvature(DX, diam_X, d):
         # Pick a row (and column) with highest number of off-diagonal
         # distances < d, then with smallest sum of off-diagonal
         # distances ≥ d.
-        K_rows_sortkeys = -np.sum(K < d, axis=0) * (len(K) * diam_X) + \
+        # (int(): diam_X has the smallest dtype that holds the distances, and
+        # NumPy >= 2 refuses to combine e.g. 128 * np.int8(127))
+        K_rows_sortkeys = -np.sum(K < d, axis=0) * (len(K) * int(diam_X)) + \
                       np.sum(np.ma.masked_less(K, d), axis=0).data
         row_to_remove = np.argmin(K_rows_sortkeys)
         # Remove the row and column from K.
